@@ -79,6 +79,16 @@ def handleCtf (op : String) (args : List Sexp) : Option Sexp := do
   | "factorize", [g, e] =>
       pure (exceptToSexp (fun r => .list [Codec.exprToSexp r.1, eventToSexp r.2])
         (factorize (← parseGraph g) (← eventOf? e)))
+  | "simplify_factorize", [g, e] =>
+      let gr ← parseGraph g
+      let ev ← eventOf? e
+      let r : Except Err Sexp := do
+        match ← simplify gr ev with
+        | none => pure (.atom "none")
+        | some s =>
+          let f ← factorize gr s
+          pure (tagged "some" [eventToSexp s, .list [Codec.exprToSexp f.1, eventToSexp f.2]])
+      pure (exceptToSexp id r)
   | _, _ => none
 
 end Y0.Driver
